@@ -85,6 +85,9 @@ func (s c10Set) ownerSpelling(o model.Name) string {
 	if k == 0 {
 		return o.Pres()
 	}
+	if s.zoneLen == 0 { // below the root: there is no zone part to leave alone
+		return escapeLetters(o.Pres(), s.respell)
+	}
 	return escapeLetters(model.Name(o[:k]).Pres(), s.respell) + model.Name(o[k:]).Pres()
 }
 
@@ -223,6 +226,13 @@ func c10Case(w *core.W, j int) {
 	if j%5 == 4 {
 		zone = model.Name{[]byte("z^ne[1]"), []byte("T@st`x")} // octets whose 0x20-partner is not a letter either
 	}
+	switch j % 17 {
+	case 9:
+		zone = model.Name{} // the root zone signs names right below it and at any depth
+		w.Count("root_zone_signers", 1)
+	case 13:
+		zone = model.Name{[]byte("Tld")}
+	}
 	k, err := getKey(alg, bits, zone.Pres(), 257, j%2)
 	if alg == dns.ED25519 && (j/len(allAlgs))%3 == 0 {
 		// a key whose tag computation needs the second carry (RFC 4034 Appendix B adds the carry once)
@@ -261,10 +271,14 @@ func c10Case(w *core.W, j int) {
 	if wild {
 		owner = append(model.Name{[]byte("*")}, zone...)
 	}
+	if j%19 == 7 {
+		owner = zone.Clone() // an RRset at the apex: owner and signer are the same name
+		w.Count("apex_rrsets", 1)
+	}
 	if !owner.Valid() {
 		return
 	}
-	wild = string(owner[0]) == "*" // also when the generator drew "*" as an ordinary label
+	wild = len(owner) > 0 && string(owner[0]) == "*" // also when the generator drew "*" as an ordinary label
 	g.Pool = []model.Name{zone, owner}
 	var set c10Set
 	n := 1 + g.R.IntN(6)
@@ -559,7 +573,9 @@ func c10Case(w *core.W, j int) {
 	mods("rrsig.Inception", func(s *dns.RRSIG) { s.Inception-- })
 	mods("rrsig.KeyTag", func(s *dns.RRSIG) { s.KeyTag++ })
 	mods("rrsig.SignerName", func(s *dns.RRSIG) { s.SignerName = "other." + s.SignerName })
-	mods("rrsig.SignerName-parent", func(s *dns.RRSIG) { s.SignerName = model.Name(zone[1:]).Pres() })
+	if len(zone) > 0 {
+		mods("rrsig.SignerName-parent", func(s *dns.RRSIG) { s.SignerName = model.Name(zone[1:]).Pres() })
+	}
 	mods("rrsig.owner", func(s *dns.RRSIG) { s.Hdr.Name = "x" + s.Hdr.Name })
 	mods("rrsig.class", func(s *dns.RRSIG) { s.Hdr.Class = 3 })
 	// one octet of the RRSIG owner / DNSKEY owner replaced by its 0x20-partner where neither is a letter
@@ -696,7 +712,7 @@ func c10Case(w *core.W, j int) {
 				alts = append(alts, alt{"rrset.rdata-name-case-of-other-type", sig, k.Key, v4})
 			}
 		}
-		if !wild {
+		if !wild && len(owner) > 0 {
 			v5 := set.clone()
 			no := append(model.Name{[]byte("zz")}, owner[1:]...)
 			for _, r := range v5.recs {
